@@ -18,6 +18,7 @@ def stepSt (s : St) : List String → St × String
   | ["fm_new", d] => ({ s with dflt := d, fm := [] }, "ok")
   | ["set", k, v] => ({ s with fm := set s.fm k v }, "ok")
   | ["idx", k] => let (m, v) := index s.fm k s.dflt; ({ s with fm := m }, v)
+  | ["set_throw", k, _] => (s, if contains s.fm k then "present" else "throw unchanged")
   | ["at", k] => (s, (at? s.fm k).getD "throw")
   | ["at_set", k, v] =>
       match atSet s.fm k v with
